@@ -3,8 +3,8 @@ import QuinnModel.Gen.C03Consts
 /-
 Model of quinn-proto/src/connection/ack_frequency.rs `AckFrequencyState`.
 `Duration` = Nat nanoseconds.  Panic sites: `Ord::clamp` (`assert!(min <= max)`) in `candidate_max_ack_delay`
-(reached from `should_send_ack_frequency` and from `populate_packet`), `assert!(next <= VarInt::MAX)` in
-`next_sequence_number`.  The f32 comparison of `should_send_ack_frequency` is an opaque parameter `fdec`
+(reached from `should_send_ack_frequency` and from `populate_packet`; proved unreachable since the fix of DESIGN §7 F1),
+`assert!(next <= VarInt::MAX)` in `next_sequence_number`.  The f32 comparison of `should_send_ack_frequency` is an opaque parameter `fdec`
 of the model (DESIGN §3: floats are inputs); the driver instantiates it with `rttErrorExceeds` (IEEE binary32,
 same operations as the Rust).
 -/
@@ -43,10 +43,12 @@ def clamp (x lo hi : Nat) : Option Nat :=
 def minAckDelayNs (peerMin : Option Nat) : Nat :=
   (match peerMin with | none => 0 | some x => x) * 1000
 
-/-- `AckFrequencyState::candidate_max_ack_delay` (none = panic) -/
+/-- `AckFrequencyState::candidate_max_ack_delay` (none = the `assert!(min <= max)` of `Ord::clamp`; unreachable since the
+    upper bound is `rtt.max(MIN_AUTOMATIC_ACK_DELAY).max(min_ack_delay)`: `Props.C03.candidate_max_ack_delay_no_panic`) -/
 def candidateMaxAckDelay (s : State) (rtt : Nat) (cfg peerMin : Option Nat) : Option Nat :=
-  clamp (match cfg with | some d => d | none => s.peerMaxAckDelay) (minAckDelayNs peerMin)
-    (Nat.max rtt Gen.minAutomaticAckDelayNs)
+  let minAckDelay := minAckDelayNs peerMin
+  let upper := Gen.candidateUpper rtt minAckDelay
+  clamp (match cfg with | some d => d | none => s.peerMaxAckDelay) minAckDelay upper
 
 /-- `AckFrequencyState::max_ack_delay_for_pto` -/
 def maxAckDelayForPto (s : State) : Nat :=
